@@ -273,6 +273,26 @@ pub fn execute(case: &Case) -> Outcome {
                 std::thread::sleep(Duration::from_millis(20));
             }
         }
+        // ---- (3c) sessions that end by quit and quitq come first: however connections ended
+        // before, the limit enforced afterwards is still the configured one
+        for (k, opq) in [(op::QUIT, 60u32), (op::QUITQ, 61u32)] {
+            if let Some(mut cq) = Client::open(&net, k as usize % listeners.max(1)) {
+                let mut n = Request::bare(op::NOOP);
+                n.opaque = opq;
+                cq.send(&n);
+                let _ = cq.recv(LONG);
+                let mut q = Request::bare(k);
+                q.opaque = opq + 10;
+                cq.send(&q);
+                if k == op::QUIT {
+                    let _ = cq.recv(LONG);
+                }
+                std::thread::sleep(Duration::from_millis(30));
+                cq.close();
+                std::thread::sleep(Duration::from_millis(20));
+                out.count("sessions_ended_by_quit_before_the_limit_probe", 1);
+            }
+        }
         // ---- (4) the configured connection limit is the one enforced, whichever listener gets the connections
         let mut clients: Vec<Client> = Vec::new();
         for k in 0..limit + 1 {
